@@ -183,8 +183,19 @@ def gen_c03(tier, rng):
         s.append(conc.Scn("f%d" % i, "breaker", tick_stream(rng, 60), ths, mode, rand_cfg(rng)))
     return s
 
+def gen_long_window(tier):
+    """one event per tick for n ticks (interval 1): hundreds (thorough: thousands) of buckets in the reservoir, all of them
+    expiring in ONE roll after a gap longer than the window; judged by the reference window of the driver (the model replay of
+    such a script is quadratic: only the 700-bucket script of the thorough tier is replayed)"""
+    out = []
+    for n, window, jump in ([(700, 2000, 10 ** 6)] if tier == "quick" else [(700, 2000, 10 ** 6), (1500, 2000, 10 ** 6), (4300, 100000, 10 ** 7)]):
+        ticks = [0] + list(range(1, n + 1)) + [jump, jump + 1]
+        ops = ["ws" if i % 3 else "wf" for i in range(n)] + ["wf", "wc"]
+        out.append(conc.Scn("lw%d" % n, "window", ticks, [ops], "dfs 0 1", cfg_opts(window=window, interval=1, maxsteps=400000000, **({} if (tier != "quick" and n <= 700) else {"nomodel": 1}))))
+    return out
+
 def gen_c10(tier, rng):
-    s = []
+    s = gen_long_window(tier)
     for i in range(scale(tier, 300, 5000)):   # sequential window scripts vs the reference window
         n = rng.choice([6, 12, 24])
         ops = rng.choices(["ws", "wf", "wc"], weights=(3, 3, 1), k=n)
